@@ -73,8 +73,17 @@ class Bounds:
             self.defs.setdefault(p.arg, []).append(None)
         self._cache: dict[tuple[str, str], bool] = {}
 
+    def canon(self, s: ast.AST) -> ast.AST:
+        """A local alias of the source (src = state.src) denotes the source itself."""
+        if isinstance(s, ast.Name):
+            ds = self.defs.get(s.id)
+            if ds and all(isinstance(d, ast.Attribute) and d.attr == "src" for d in ds) and len({U(d) for d in ds}) == 1:
+                return ds[0]          # type: ignore[return-value]
+        return s
+
     def state_root(self, s: ast.AST) -> tuple[str, str] | None:
         """('inline'|'block', root text) if s is <state>.src for a parser state object."""
+        s = self.canon(s)
         if isinstance(s, ast.Attribute) and s.attr == "src":
             t = self.sc.type(s.value)
             if t == "StateInline":
@@ -85,7 +94,7 @@ class Bounds:
 
     def is_bound(self, term: str, s: ast.AST, seen: frozenset[str] = frozenset()) -> bool:
         stext = U(s)
-        if term == f"len({stext})":
+        if term == f"len({stext})" or term == f"len({U(self.canon(s))})":
             return True
         sr = self.state_root(s)
         if sr is not None:
@@ -98,18 +107,21 @@ class Bounds:
             ds = self.defs.get(term)
             if ds and all(d is not None and self._bound_expr(d, s, seen | {term}) for d in ds):
                 return True
-            if ds == [None] and isinstance(s, ast.Name) and self._param_bound(term, s.id):
+            if ds == [None] and self._param_bound(term, self.canon(s)):
                 return True
         return False
 
-    def _param_bound(self, pname: str, sname: str, depth: int = 0) -> bool:
-        """Parameter `pname` bounds string parameter `sname` if at every call site of this function the actual for pname is a
-        bound (in the caller) of the actual for sname: the helper contract `maximum <= len(string)`."""
+    def _param_bound(self, pname: str, s: ast.AST, depth: int = 0) -> bool:
+        """Parameter `pname` bounds the string `s` (a str parameter, or <param>.src) if at every call site of this function the
+        actual for pname is a bound (in the caller) of the corresponding string: the helper contract `maximum <= len(string)`."""
         f = self.f
         params = [a.arg for a in f.node.args.posonlyargs + f.node.args.args]
-        if pname not in params or sname not in params or depth > 3:
+        root = s
+        while isinstance(root, ast.Attribute):
+            root = root.value
+        if pname not in params or not isinstance(root, ast.Name) or root.id not in params or depth > 3:
             return False
-        key = ("param", pname + "|" + sname)
+        key = ("param", pname + "|" + U(s))
         if key in self._cache:
             return self._cache[key]
         self._cache[key] = False
@@ -117,10 +129,20 @@ class Bounds:
         ok = bool(sites)
         for cs in sites:
             ap = self.c.eff.arg_for_param(cs, f, pname)
-            as_ = self.c.eff.arg_for_param(cs, f, sname)
-            if ap is None or as_ is None:
+            ar = self.c.eff.arg_for_param(cs, f, root.id)
+            if ap is None or ar is None:
                 ok = False
                 break
+            # the string as the caller sees it: the root parameter replaced by its actual
+            if isinstance(s, ast.Name):
+                as_: ast.AST = ar
+            else:
+                import copy
+                as_ = copy.deepcopy(s)
+                node = as_
+                while isinstance(node, ast.Attribute) and isinstance(node.value, ast.Attribute):
+                    node = node.value
+                node.value = ar          # type: ignore[attr-defined]
             cb = Bounds(self.c, cs.caller)
             l = lin(ap)
             good = l is not None and l[0] is not None and l[1] <= 0 and cb.is_bound(l[0], as_)
@@ -489,11 +511,20 @@ def _is_source_string(c: Ctx, f: Func, s: ast.Subscript) -> bool:
         return False
     if c.tf.scope(f).type(s.value) != "str":
         return False
+    if isinstance(s.value, ast.Name):
+        pass
     # configuration values (options.quotes[i]) are not source text
     for n in ast.walk(s.value):
         if isinstance(n, ast.Attribute) and n.attr == "options":
             return False
     return True
+
+
+def _module_funcs(c: Ctx, f: Func) -> set[str]:
+    """Short names of the functions the reviewed exemptions of this module were written for (the module's functions at review
+    time are named in EXEMPT; a helper extracted from one of them lives in the same module)."""
+    return {k[0] for k in EXEMPT if any(g.short == k[0] and g.module is f.module for g in c.p.all_funcs())} | \
+           {k[0] for k in EXEMPT if k[0].split(".")[0] == (f.cls or "")}
 
 
 def rule_bnd(c: Ctx, wide: bool = False) -> RuleResult:
@@ -547,6 +578,11 @@ def rule_bnd(c: Ctx, wide: bool = False) -> RuleResult:
                 r.add(key, where, f.short, U(s), "discharged", how)
                 continue
             ek = (f.short, alpha(f, s))
+            if ek not in EXEMPT:
+                # the same construct moved into a helper of the same module (extract-method refactoring)
+                same = [k for k in EXEMPT if k[1] == ek[1] and k[0] in _module_funcs(c, f)]
+                if same:
+                    ek = same[0]
             if ek in EXEMPT:
                 used_exempt.add(ek)
                 r.add(key, where, f.short, U(s), "exempt", EXEMPT[ek])
